@@ -1,5 +1,8 @@
 import AFModel.Gate
 import AFModel.FloatOps
+import AFModel.GateComp
+import AFModel.GateRoute
+import AFProofs.Lemmas.GateComp
 
 /-!
 # C03 — limits and assertions gate every instance
@@ -254,5 +257,303 @@ theorem mem_flatten_of_child (asserts : List (Asrt V)) (children : List (ATree V
 example : gateTree natOps t₀ [(0, 10), (0, 50)] (.node [] [.node [a₀] []]) [3, 6] false = .error .fit := by rfl
 example : gateTree natOps t₀ [(0, 10), (0, 50)] (.node [] [.node [a₀] []]) [3, 7] false
     = .ok (instFromVector natOps t₀ [3, 7]) := by rfl
+
+end AF.C03
+
+/-! ## the gate computed from the composition (`AFModel/GateComp.lean`)
+
+`ANode` carries the assertions where `add_assertion` put them; `ANode.trees` is the recursion of
+`instance_for_arguments`; `Reach c d` says that building `c` calls `instance_for_arguments` on `d`.
+The theorems below are by induction over the composition: no reachable node's assertion is skipped,
+all are evaluated under the one binding `valOf (argsOfVector c.erase v)`. -/
+
+namespace AF.C03
+open AF
+
+variable {V : Type} [Inhabited V]
+set_option linter.unusedSectionVars false
+
+/-- the assertions the recursion evaluates are exactly those attached to a node reachable from the
+root, at any depth, through model attributes, collection items, array entries and the operands of
+compound / modified priors -/
+theorem trees_flatten_iff (c : ANode V) (a : Asrt V) :
+    a ∈ (ATree.node [] c.trees).flatten ↔ ∃ d, Reach c d ∧ a ∈ d.asserts := by
+  simp only [ATree.flatten, List.nil_append]
+  exact mem_trees_iff c a
+
+theorem gateComp_eq_gate (ops : Ops V) (c : ANode V) (lims : List (V × V)) (v : List V) (ignore : Bool) :
+    gateComp ops c lims v ignore = gate ops c.erase lims (ATree.node [] c.trees).flatten v ignore :=
+  gateTree_eq_gate ops c.erase lims _ v ignore
+
+/-- **Gate, computed from the model.** An instance is produced iff the length is right, every value
+lies inside its prior's limits and EVERY assertion attached at ANY node the instantiation reaches is
+true of the values; it is then the instance of C01 for the composition without its assertions. -/
+theorem gateComp_ok_iff (ops : Ops V) (c : ANode V) (lims : List (V × V)) (v : List V) (i : Inst V) :
+    gateComp ops c lims v false = .ok i ↔
+      v.length = count c.erase ∧ limitsOk ops lims v = true ∧
+      (∀ d, Reach c d → ∀ a ∈ d.asserts, evalA ops (valOf (argsOfVector c.erase v)) a = true) ∧
+      i = instFromVector ops c.erase v := by
+  rw [gateComp_eq_gate, gate_ok_iff]
+  constructor
+  · rintro ⟨h1, h2, h3, h4⟩
+    exact ⟨h1, h2, fun d hr a ha => h3 a ((trees_flatten_iff c a).mpr ⟨d, hr, ha⟩), h4⟩
+  · rintro ⟨h1, h2, h3, h4⟩
+    refine ⟨h1, h2, fun a ha => ?_, h4⟩
+    obtain ⟨d, hr, had⟩ := (trees_flatten_iff c a).mp ha
+    exact h3 d hr a had
+
+/-- one false assertion at one reachable node is enough for the fit exception -/
+theorem gateComp_assertion_error (ops : Ops V) (c d : ANode V) (lims : List (V × V)) (v : List V)
+    (hl : v.length = count c.erase) (h : limitsOk ops lims v = true) (hr : Reach c d) (a : Asrt V)
+    (ha : a ∈ d.asserts) (hf : evalA ops (valOf (argsOfVector c.erase v)) a = false) :
+    gateComp ops c lims v false = .error .fit := by
+  rw [gateComp_eq_gate]
+  exact gate_assertion_error ops c.erase lims _ v hl h a ((trees_flatten_iff c a).mpr ⟨d, hr, ha⟩) hf
+
+theorem gateComp_limit_error (ops : Ops V) (c : ANode V) (lims : List (V × V)) (v : List V)
+    (hl : v.length = count c.erase) (h : limitsOk ops lims v = false) :
+    gateComp ops c lims v false = .error .priorLimit := by
+  rw [gateComp_eq_gate]; exact gate_limit_error ops c.erase lims _ v hl h
+
+theorem gateComp_ignore (ops : Ops V) (c : ANode V) (lims : List (V × V)) (v : List V)
+    (hl : v.length = count c.erase) :
+    gateComp ops c lims v true = .ok (instFromVector ops c.erase v) := by
+  rw [gateComp_eq_gate]; exact gate_ignore ops c.erase lims _ v hl
+
+/-- a component that is reachable twice is checked twice — under the same binding, so the second
+check cannot decide differently -/
+theorem check_twice_same (ops : Ops V) (ρ : Nat → Inst V) (c : ANode V) :
+    checkTrees ops ρ (c.trees ++ c.trees) = checkTrees ops ρ c.trees := by
+  simp [checkTrees_eq_all, flattenTrees_append, List.all_append]
+
+/-- when an instance is produced `check_assertions` ran at every node of the recursion tree, once per
+occurrence, parent before children, and every verdict was true -/
+theorem trace_complete_of_ok (ops : Ops V) (c : ANode V) (lims : List (V × V)) (v : List V) (i : Inst V)
+    (h : gateComp ops c lims v false = .ok i) :
+    gateCompTrace ops c lims v false = fullTraces ops (valOf (argsOfVector c.erase v)) c.trees ∧
+    ∀ vs ∈ gateCompTrace ops c lims v false, hasFalse vs = false := by
+  have hl : v.length = count c.erase := ((gateComp_ok_iff ops c lims v i).mp h).1
+  have hlim : limitsOk ops lims v = true := ((gateComp_ok_iff ops c lims v i).mp h).2.1
+  have hc : checkTrees ops (valOf (argsOfVector c.erase v)) c.trees = true := by
+    by_cases hc : checkTrees ops (valOf (argsOfVector c.erase v)) c.trees = true
+    · exact hc
+    · simp [gateComp, gateTree, hl, hlim, checkTree, hc] at h
+  have ht : gateCompTrace ops c lims v false = fullTraces ops (valOf (argsOfVector c.erase v)) c.trees := by
+    simp [gateCompTrace, hl, hlim, traceTrees_of_check ops _ c.trees hc]
+  refine ⟨ht, ?_⟩
+  rw [ht]
+  exact fullTraces_no_false ops _ c.trees hc
+
+/-- when the fit exception is raised the walk ended at the first node with a failed assertion: every
+node visited before it passed, nothing after it was visited -/
+theorem trace_ends_at_failure (ops : Ops V) (c : ANode V) (lims : List (V × V)) (v : List V)
+    (h : gateComp ops c lims v false = .error .fit) :
+    ∃ pre last, gateCompTrace ops c lims v false = pre ++ [last] ∧ hasFalse last = true ∧
+      ∀ vs ∈ pre, hasFalse vs = false := by
+  by_cases hl : v.length = count c.erase
+  · by_cases hlim : limitsOk ops lims v = true
+    · have hc : checkTrees ops (valOf (argsOfVector c.erase v)) c.trees = false := by
+        cases hc : checkTrees ops (valOf (argsOfVector c.erase v)) c.trees
+        · rfl
+        · simp [gateComp, gateTree, hl, hlim, checkTree, hc] at h
+      have := traceTrees_of_fail ops (valOf (argsOfVector c.erase v)) c.trees hc
+      simpa [gateCompTrace, hl, hlim] using this
+    · simp [gateComp, gateTree, hl, hlim] at h
+  · simp [gateComp, gateTree, hl] at h
+
+/-- ignoring, a wrong length or a value outside its limits: no assertion is looked at -/
+theorem trace_empty_when_not_checked (ops : Ops V) (c : ANode V) (lims : List (V × V)) (v : List V) :
+    gateCompTrace ops c lims v true = [] ∧
+    (limitsOk ops lims v = false → gateCompTrace ops c lims v false = []) := by
+  constructor
+  · simp [gateCompTrace]
+  · intro h; simp [gateCompTrace, h]
+
+/-! non-vacuity: a collection holding a model with an assertion of its own, an assertion on the
+collection, and the same model a second time -/
+def m₁ : ANode Nat :=
+  .model "P2" ["a", "b"] [buildCmp (.prior 2) .lt (.prior 5)] [("a", .leaf (.prior 5)), ("b", .leaf (.prior 2))]
+def c₁ : ANode Nat := .coll [buildCmp (.prior 5) .le (.const 9)] [("g", m₁), ("h", m₁), ("k", .leaf (.const 4))]
+
+example : gateComp natOps c₁ [(0, 10), (0, 50)] [3, 7] false = .ok (instFromVector natOps c₁.erase [3, 7]) := by rfl
+example : gateComp natOps c₁ [(0, 10), (0, 50)] [7, 3] false = .error .fit := by rfl
+example : gateComp natOps c₁ [(0, 10), (0, 50)] [4, 10] false = .error .fit := by rfl
+example : gateComp natOps c₁ [(0, 10), (0, 50)] [11, 30] false = .error .priorLimit := by rfl
+example : gateComp natOps c₁ [(0, 10), (0, 50)] [7, 3] true = .ok (instFromVector natOps c₁.erase [7, 3]) := by rfl
+example : gateCompTrace natOps c₁ [(0, 10), (0, 50)] [3, 7] false = [[true], [true], [true]] := by rfl
+example : gateCompTrace natOps c₁ [(0, 10), (0, 50)] [7, 3] false = [[true], [false]] := by rfl
+example : gateCompTrace natOps c₁ [(0, 10), (0, 50)] [4, 10] false = [[false]] := by rfl
+example : Reach c₁ m₁ := Reach.step (by simp [c₁, ANode.kids]) (Reach.refl _)
+
+end AF.C03
+
+/-! ## routes and flags (`AFModel/GateRoute.lean`) -/
+
+namespace AF.C03
+open AF
+
+variable {V : Type} [Inhabited V]
+set_option linter.unusedSectionVars false
+
+theorem checkTrees_single (ops : Ops V) (ρ : Nat → Inst V) (ts : List (ATree V)) :
+    checkTree ops ρ (.node [] ts) = checkTrees ops ρ ts := by
+  simp [checkTree]
+
+/-- the routes that check limits and the root (`instance_from_vector`, `instance_from_unit_vector`,
+`instance_from_prior_medians`, `random_instance`) are the gate of `gateComp_ok_iff` on the physical
+values -/
+theorem route_eq_gateComp (ops : Ops V) (r : Route) (c : ANode V) (lims : List (V × V)) (v : List V)
+    (ignore : Bool) (hr : r.checksRoot = true) (hl : r.checksLimits ignore = !ignore) :
+    gateRoute ops r c lims v ignore = gateComp ops c lims v ignore := by
+  simp only [gateRoute, gateComp, gateTree, hr, hl, if_true, checkTrees_single]
+
+theorem route_vector (ops : Ops V) (c : ANode V) (lims : List (V × V)) (v : List V) (ignore : Bool) :
+    gateRoute ops .vector c lims v ignore = gateComp ops c lims v ignore :=
+  route_eq_gateComp ops .vector c lims v ignore rfl rfl
+
+theorem route_unit_vector (ops : Ops V) (c : ANode V) (lims : List (V × V)) (v : List V) (ignore : Bool) :
+    gateRoute ops .unitVector c lims v ignore = gateComp ops c lims v ignore :=
+  route_eq_gateComp ops .unitVector c lims v ignore rfl rfl
+
+theorem route_medians (ops : Ops V) (c : ANode V) (lims : List (V × V)) (v : List V) (ignore : Bool) :
+    gateRoute ops .medians c lims v ignore = gateComp ops c lims v ignore :=
+  route_eq_gateComp ops .medians c lims v ignore rfl rfl
+
+theorem route_random (ops : Ops V) (c : ANode V) (lims : List (V × V)) (v : List V) (ignore : Bool) :
+    gateRoute ops .random c lims v ignore = gateComp ops c lims v ignore :=
+  route_eq_gateComp ops .random c lims v ignore rfl rfl
+
+/-- `instance_for_arguments` never looks at the limits: it is the gate with no limits at all -/
+theorem route_arguments (ops : Ops V) (c : ANode V) (lims : List (V × V)) (v : List V) (ignore : Bool) :
+    gateRoute ops .arguments c lims v ignore = gateComp ops c [] v ignore := by
+  simp [gateRoute, gateComp, gateTree, Route.checksLimits, Route.checksRoot, limitsOk, checkTrees_single]
+
+/-- so an instance comes out of `instance_for_arguments` iff every assertion of every reachable node
+holds (whatever the limits) -/
+theorem route_arguments_ok_iff (ops : Ops V) (c : ANode V) (lims : List (V × V)) (v : List V) (i : Inst V) :
+    gateRoute ops .arguments c lims v false = .ok i ↔
+      v.length = count c.erase ∧
+      (∀ d, Reach c d → ∀ a ∈ d.asserts, evalA ops (valOf (argsOfVector c.erase v)) a = true) ∧
+      i = instFromVector ops c.erase v := by
+  rw [route_arguments, gateComp_ok_iff]
+  simp [limitsOk]
+
+/-- **Ignoring always yields an instance, on every route** (`ignore_prior_limits=True` of the vector,
+unit-vector, medians and random routes; `ignore_assertions=True` of the argument routes). -/
+theorem route_ignore (ops : Ops V) (r : Route) (c : ANode V) (lims : List (V × V)) (v : List V)
+    (hl : v.length = count c.erase) :
+    gateRoute ops r c lims v true = .ok (instFromVector ops c.erase v) := by
+  cases r <;> simp [gateRoute, hl, Route.checksLimits]
+
+theorem rootless_of_no_root_asserts (c : ANode V) (h : c.asserts = []) : rootless c.trees = c.trees := by
+  cases c <;> simp_all [ANode.trees, ANode.asserts, rootless]
+
+/-- `instance_from_path_arguments` / `instance_from_prior_name_arguments` call
+`_instance_for_arguments` on the root directly. PARTIAL: they gate like `instance_for_arguments` only
+under the guard that no assertion is attached to the root itself … -/
+theorem route_path_partial (ops : Ops V) (c : ANode V) (lims : List (V × V)) (v : List V) (ignore : Bool)
+    (guard : c.asserts = []) :
+    gateRoute ops .pathArguments c lims v ignore = gateRoute ops .arguments c lims v ignore := by
+  simp [gateRoute, Route.checksLimits, Route.checksRoot, rootless_of_no_root_asserts c guard]
+
+/-- … assertions below the root are enforced on that route too … -/
+theorem route_path_below_root (ops : Ops V) (c k d : ANode V) (lims : List (V × V)) (v : List V)
+    (hl : v.length = count c.erase) (hk : k ∈ c.kids) (hr : Reach k d) (a : Asrt V) (ha : a ∈ d.asserts)
+    (hf : evalA ops (valOf (argsOfVector c.erase v)) a = false) :
+    gateRoute ops .pathArguments c lims v false = .error .fit := by
+  have hmem : a ∈ flattenTrees k.trees := (mem_trees_iff k a).mpr ⟨d, hr, ha⟩
+  have hall : ∀ ts : List (ATree V), a ∈ flattenTrees ts →
+      checkTrees ops (valOf (argsOfVector c.erase v)) ts = false := by
+    intro ts hts
+    rw [checkTrees_eq_all, Bool.eq_false_iff]
+    intro hall
+    have := List.all_eq_true.mp hall a hts
+    simp [hf] at this
+  have hkids : ∀ (attrs : List (String × ANode V)), k ∈ attrs.map (·.2) → a ∈ flattenTrees (attrTrees attrs) :=
+    fun attrs hk' => (mem_attrTrees_iff attrs a).mpr ⟨k, hk', d, hr, ha⟩
+  have : checkTrees ops (valOf (argsOfVector c.erase v)) (rootless c.trees) = false := by
+    apply hall
+    cases c with
+    | leaf n => simp [ANode.kids] at hk
+    | model cls ctor as attrs => simpa [ANode.trees, rootless, flattenTrees, ATree.flatten] using hkids attrs hk
+    | coll as attrs => simpa [ANode.trees, rootless, flattenTrees, ATree.flatten] using hkids attrs hk
+    | array sh as attrs => simpa [ANode.trees, rootless, flattenTrees, ATree.flatten] using hkids attrs hk
+    | arith op as attrs l r =>
+        simp only [ANode.kids, List.mem_cons, List.not_mem_nil, or_false] at hk
+        simp only [ANode.trees, rootless, flattenTrees, ATree.flatten, List.nil_append, List.append_nil,
+          flattenTrees_append, List.mem_append]
+        rcases hk with rfl | rfl
+        · exact Or.inl hmem
+        · exact Or.inr hmem
+    | modif op as attrs x =>
+        simp only [ANode.kids, List.mem_cons, List.not_mem_nil, or_false] at hk
+        subst hk
+        simpa [ANode.trees, rootless, flattenTrees, ATree.flatten] using hmem
+  simp [gateRoute, hl, Route.checksLimits, Route.checksRoot, this]
+
+/-- … and the unguarded statement is REFUTED: a model whose only assertion sits on the root yields an
+instance on the path route for values that violate it (known finding `C03-path-route-root-assertions`). -/
+theorem route_path_refuted :
+    ∃ (c : ANode Nat) (v : List Nat) (a : Asrt Nat), a ∈ c.asserts ∧
+      evalA natOps (valOf (argsOfVector c.erase v)) a = false ∧
+      gateRoute natOps .pathArguments c [] v false = .ok (instFromVector natOps c.erase v) ∧
+      gateRoute natOps .arguments c [] v false = .error .fit :=
+  ⟨m₁, [7, 3], buildCmp (.prior 2) .lt (.prior 5), by simp [m₁, ANode.asserts], by rfl, by rfl, by rfl⟩
+
+example : gateRoute natOps .unitVector c₁ [(0, 10), (0, 50)] [11, 30] false = .error .priorLimit := by rfl
+example : gateRoute natOps .arguments c₁ [(0, 1), (0, 1)] [3, 7] false = .ok (instFromVector natOps c₁.erase [3, 7]) := by rfl
+example : gateRoute natOps .vector c₁ [(0, 1), (0, 1)] [3, 7] false = .error .priorLimit := by rfl
+example : gateRoute natOps .pathArguments c₁ [(0, 10), (0, 50)] [7, 3] false = .error .fit := by rfl
+example : gateRoute natOps .pathArguments c₁ [(0, 10), (0, 50)] [4, 10] false = .ok (instFromVector natOps c₁.erase [4, 10]) := by rfl
+example : gateRoute natOps .random c₁ [(0, 10), (0, 50)] [70, 3] true = .ok (instFromVector natOps c₁.erase [70, 3]) :=
+  route_ignore natOps .random c₁ _ _ rfl
+
+/-! ## comparison operators on objects and Python numbers, reflected operands, two-link chains -/
+
+/-- a comparison involving at least one object builds the same assertion whichever side the number is
+on (Python calls the reflected method of the object) -/
+theorem cmpOpnd_eq_buildCmp (ops : Ops V) (x y : Opnd V) (op : CmpOp) (h : x.isObj = true ∨ y.isObj = true) :
+    cmpOpnd ops x op y = buildCmp x.node op y.node := by
+  cases x <;> cases y <;> cases op <;> simp_all [cmpOpnd, buildCmp, Opnd.node, Opnd.isObj, CmpOp.flip,
+    CmpOp.ascending, CmpOp.strict]
+
+/-- the verdict of `x op y` is Python's `op` on the two numbers, also for reflected operands and for two
+plain numbers -/
+theorem evalA_cmpOpnd (ops : Ops V) (ρ : Nat → Inst V) (x y : Opnd V) (op : CmpOp) (a b : V)
+    (hx : operandVal ops ρ x.node = some a) (hy : operandVal ops ρ y.node = some b) :
+    evalA ops ρ (cmpOpnd ops x op y) = cmpNum ops a op b := by
+  cases x <;> cases y <;> cases op <;>
+    simp_all [cmpOpnd, buildCmp, Opnd.node, CmpOp.flip, CmpOp.ascending, CmpOp.strict, evalA, cmpNum,
+      operandVal, instW]
+
+/-- **two-link chains with any mix of objects and numbers**: `(x op₁ y) op₂ z`, same direction, denotes
+`x op₁ y ∧ y op₂ z` (every link involving an object) -/
+theorem chainOpnd_same_direction (ops : Ops V) (ρ : Nat → Inst V) (x y z : Opnd V) (op₁ op₂ : CmpOp)
+    (h : op₁.ascending = op₂.ascending) (h₁ : x.isObj = true ∨ y.isObj = true) :
+    evalA ops ρ (chainOpnd ops x op₁ y op₂ z) =
+      (evalA ops ρ (cmpOpnd ops x op₁ y) && evalA ops ρ (cmpOpnd ops y op₂ z)) := by
+  have hb := cmpOpnd_eq_buildCmp ops x y op₁ h₁
+  unfold chainOpnd
+  rw [hb]
+  cases h₁' : op₁.ascending <;> cases h₂' : op₂.ascending <;> simp_all [buildCmp, evalA]
+
+/-- **constant on the left of a comparison**: `k op₁ (x op₂ y)`, same direction, denotes
+`k op₁ x ∧ x op₂ y` -/
+theorem reflOpnd_same_direction (ops : Ops V) (ρ : Nat → Inst V) (k : V) (x y : Opnd V) (op₁ op₂ : CmpOp)
+    (h : op₁.ascending = op₂.ascending) (h₁ : x.isObj = true ∨ y.isObj = true) (hx : x.isObj = true) :
+    evalA ops ρ (reflOpnd ops k op₁ x op₂ y) =
+      (evalA ops ρ (cmpOpnd ops (.num k) op₁ x) && evalA ops ρ (cmpOpnd ops x op₂ y)) := by
+  have hb := cmpOpnd_eq_buildCmp ops x y op₂ h₁
+  unfold reflOpnd chainOpnd
+  rw [hb, Bool.and_comm]
+  cases x with
+  | num _ => simp [Opnd.isObj] at hx
+  | obj n =>
+    cases op₁ <;> cases op₂ <;>
+      simp_all [buildCmp, evalA, cmpOpnd, CmpOp.flip, CmpOp.ascending, CmpOp.strict, Opnd.node]
+
+example : evalA natOps (valOf [(2, 7), (5, 3)]) (reflOpnd natOps 1 .lt (.obj (.prior 5)) .lt (.obj (.prior 2))) = true := by rfl
+example : evalA natOps (valOf [(2, 7), (5, 3)]) (reflOpnd natOps 4 .lt (.obj (.prior 5)) .lt (.obj (.prior 2))) = false := by rfl
+example : evalA natOps (valOf [(2, 7), (5, 3)]) (chainOpnd natOps (.num 1) .lt (.obj (.prior 5)) .le (.num 3)) = true := by rfl
 
 end AF.C03
